@@ -458,6 +458,25 @@ func parExecuteCmd(sc *Scenario, out *Outcome) *Outcome {
 	file := filepath.Join(root, "a.klg")
 	_ = os.WriteFile(file, []byte(pc.text()), 0o644)
 	_ = os.MkdirAll(filepath.Join(root, "cfg"), 0o755)
+	if bigNumberRe.MatchString(pc.text()) {
+		// `report --chart` on absurdly large totals dies of memory exhaustion with one CPU as with many (the recorded
+		// C06 finding about unbounded durations, known_findings.json): nothing to compare, the chart is left out
+		var cmd []string
+		skipNext := false
+		for _, a := range pc.Cmd {
+			if skipNext {
+				skipNext = false
+				continue
+			}
+			if pc.Cmd[0] == "report" && (a == "--chart" || a == "-c" || strings.HasPrefix(a, "--chart-res")) {
+				out.stat("chart_left_out_big_number", 1)
+				skipNext = a == "--chart-res"
+				continue
+			}
+			cmd = append(cmd, a)
+		}
+		pc = &ParCase{TextB64: pc.TextB64, Origin: pc.Origin, Workers: pc.Workers, Tape: pc.Tape, Cmd: cmd, NFiles: pc.NFiles, Via: pc.Via}
+	}
 	argv, stdin, how := deliver(pc.Via, pc.Cmd, file, filepath.Join(root, "cfg"))
 	out.stat("input_via_"+how, 1)
 	if pc.NFiles > 1 {
